@@ -3,6 +3,7 @@
 package harness
 
 import (
+	"context"
 	"fmt"
 	"math/rand"
 	"sort"
@@ -15,7 +16,10 @@ import (
 	sdk "github.com/cosmos/cosmos-sdk/types"
 	authtypes "github.com/cosmos/cosmos-sdk/x/auth/types"
 	"github.com/cosmos/cosmos-sdk/x/authz"
+	ibctransfertypes "github.com/cosmos/ibc-go/v8/modules/apps/transfer/types"
+	clienttypes "github.com/cosmos/ibc-go/v8/modules/core/02-client/types"
 
+	markerkeeper "github.com/provenance-io/provenance/x/marker/keeper"
 	markertypes "github.com/provenance-io/provenance/x/marker/types"
 )
 
@@ -33,6 +37,13 @@ import (
 // Part G  histories of calls on TWO markers with AddAccess / DeleteAccess / Set- and
 //         RemoveAdministrator proposals between the other endpoints.
 // Part H  AddFinalizeActivateMarker, UpdateParams, the fee allowance's granter, endpoint coverage.
+// Part I  the whole-supply escape of AddAccess / DeleteAccess on markers whose bank supply is not the
+//         recorded one: floating markers after mints, burns and governance supply changes, finalized
+//         markers with pre-existing coins, fixed-supply markers as control; the caller holding all
+//         circulating coins (less / more than the record), exactly the record, one less, nothing.
+// Part J  MsgIbcTransferRequest through the marker message server of a SECOND marker keeper over the
+//         app's stores whose ibc transfer server escrows the token: administrator == sender / another
+//         account with, without, with a too small / wrong-recipient grant, with FORCE_TRANSFER.
 // ---------------------------------------------------------------------------------------------
 
 func c12Withdraws(e *c12Env, r *rand.Rand, w *CaseWriter) {
@@ -771,4 +782,302 @@ func c12Misc(e *c12Env, r *rand.Rand, w *CaseWriter) {
 	}
 	sort.Strings(ops)
 	w.Add("CCoverage "+coqList(ops), desc{"part": "coverage", "endpoints_exercised": ops})
+}
+
+// ---------------------------------------------------------------------------------------------
+// Part I
+// ---------------------------------------------------------------------------------------------
+
+const c12SupplyOps = 110 // holds mint, burn, withdraw on the floating markers
+
+func c12FloatingSupply(e *c12Env, r *rand.Rand, w *CaseWriter) {
+	app, base := e.app, e.base
+	type desc map[string]any
+	caller, opsAddr, mgr := addrN(c12Caller), addrN(c12SupplyOps), addrN(c12Manager)
+	ensureAccount(app, base, opsAddr)
+	n := scale(600, 10000)
+	for i := 0; i < n; i++ {
+		ctx, _ := base.CacheContext()
+		denom := "xfloat"
+		fixed := r.Intn(4) == 0
+		restricted := r.Intn(2) == 0
+		finalizedOnly := r.Intn(5) == 0
+		mt, mtCoq := markertypes.MarkerType_Coin, "TCoin"
+		if restricted {
+			mt, mtCoq = markertypes.MarkerType_RestrictedCoin, "TRestricted"
+		}
+		access := []markertypes.AccessGrant{
+			{Address: addrN(c12Minter).String(), Permissions: []markertypes.Access{markertypes.Access_Mint}},
+			{Address: opsAddr.String(), Permissions: []markertypes.Access{markertypes.Access_Mint, markertypes.Access_Burn, markertypes.Access_Withdraw}},
+			{Address: addrN(c12Third).String(), Permissions: []markertypes.Access{markertypes.Access_Deposit}},
+		}
+		ma := markertypes.NewMarkerAccount(authtypes.NewBaseAccountWithAddress(markertypes.MustGetMarkerAddress(denom)),
+			sdk.NewInt64Coin(denom, 1000), mgr, access, markertypes.StatusProposed, mt, fixed, true, false, nil)
+		e.must(app.MarkerKeeper.AddMarkerAccount(ctx, ma), "add "+denom)
+		maddr := ma.GetAddress()
+		var changes []string
+		if finalizedOnly {
+			// coins of the denom that exist before the marker is finalized
+			if pre := []int64{0, 300, 1000, 1}[r.Intn(4)]; pre > 0 {
+				e.fundBypass(ctx, caller, sdk.NewCoins(sdk.NewInt64Coin(denom, pre)))
+				changes = append(changes, fmt.Sprintf("pre-existing %d", pre))
+			}
+			e.must(app.MarkerKeeper.FinalizeMarker(ctx, mgr, denom), "finalize")
+		} else {
+			e.must(app.MarkerKeeper.FinalizeMarker(ctx, mgr, denom), "finalize")
+			e.must(app.MarkerKeeper.ActivateMarker(ctx, mgr, denom), "activate")
+			for k := r.Intn(4); k > 0; k-- {
+				amt := int64(1 + r.Intn(600))
+				if r.Intn(4) == 0 {
+					amt = 400
+				}
+				var msg sdk.Msg
+				var what string
+				switch r.Intn(4) {
+				case 0:
+					msg, what = markertypes.NewMsgMintRequest(opsAddr, sdk.NewInt64Coin(denom, amt)), "mint"
+				case 1:
+					msg, what = markertypes.NewMsgBurnRequest(opsAddr, sdk.NewInt64Coin(denom, amt)), "burn"
+				case 2:
+					msg, what = markertypes.NewMsgSupplyIncreaseProposalRequest(sdk.NewInt64Coin(denom, amt), "", e.gov.String()), "gov-increase"
+				default:
+					msg, what = markertypes.NewMsgSupplyDecreaseProposalRequest(sdk.NewInt64Coin(denom, amt), e.gov.String()), "gov-decrease"
+				}
+				cc, write := ctx.CacheContext()
+				if err := e.handle(cc, msg); err == nil {
+					write()
+					changes = append(changes, fmt.Sprintf("%s %d", what, amt))
+				}
+			}
+		}
+		m, err := app.MarkerKeeper.GetMarkerByDenom(ctx, denom)
+		e.must(err, "get "+denom)
+		record := m.GetSupply().Amount
+		escrow := app.BankKeeper.GetBalance(ctx, maddr, denom).Amount
+		// what the caller ends up holding
+		mode := "as-is"
+		if !finalizedOnly {
+			var give sdkmath.Int
+			switch r.Intn(8) {
+			case 0, 1, 2:
+				mode, give = "all-circulating", escrow
+			case 3:
+				mode, give = "exactly-the-record", record
+			case 4:
+				mode, give = "all-circulating-but-one", escrow.SubRaw(1)
+			case 5:
+				mode, give = "the-record-less-one", record.SubRaw(1)
+			case 6:
+				mode, give = "nothing", sdkmath.ZeroInt()
+			default:
+				mode, give = "some", sdkmath.NewInt(int64(r.Intn(1000)))
+			}
+			if give.GT(escrow) {
+				give = escrow
+			}
+			if give.IsPositive() {
+				e.must(app.BankKeeper.SendCoins(markertypes.WithBypass(ctx), maddr, caller, sdk.NewCoins(sdk.NewCoin(denom, give))), "hand out")
+			}
+		}
+		mask := 0
+		switch r.Intn(10) {
+		case 0:
+			mask = 32
+		case 1:
+			mask = r.Intn(64)
+		}
+		e.setRights(ctx, denom, caller, mask)
+		m, _ = app.MarkerKeeper.GetMarkerByDenom(ctx, denom)
+		bank := app.BankKeeper.GetSupply(ctx, denom).Amount
+		bal := app.BankKeeper.GetBalance(ctx, caller, denom).Amount
+		op := []string{"OAddAccess", "ODeleteAccess"}[r.Intn(2)]
+		before := m.GetStatus()
+		cc, write := ctx.CacheContext()
+		err = e.handle(cc, e.opMsg(op, denom, caller))
+		if err == nil {
+			write()
+		}
+		after := before
+		if m2, err2 := app.MarkerKeeper.GetMarkerByDenom(ctx, denom); err2 == nil {
+			after = m2.GetStatus()
+		}
+		cfg := fmt.Sprintf("{| c_status := %s; c_type := %s; c_rights := %d%%N; c_manager := %s; c_gov := false; c_govctl := %s; c_allsupply := false; c_supply_zero := false; c_activated := %s |}",
+			c12StatusCoq[before], mtCoq, mask, coqBool(m.GetManager().Equals(caller)), coqBool(m.HasGovernanceEnabled()), coqBool(!finalizedOnly))
+		sf := fmt.Sprintf("{| sf_record := %s; sf_bank := %s; sf_balance := %s |}", zInt(record), zInt(bank), zInt(bal))
+		w.Add(fmt.Sprintf("CSupply %s %s %s %s %s", cfg, sf, op, coqBool(err == nil), c12StatusCoq[after]),
+			desc{"part": "floating-supply", "op": op, "status": before.String(), "type": mtCoq, "supply_fixed": fixed, "supply_changes": changes, "caller_holds": mode,
+				"recorded_supply": record.String(), "bank_supply": bank.String(), "caller_balance": bal.String(), "rights": c12RightList(mask), "ok": err == nil})
+		w.Count("supply_cases")
+		if !record.Equal(bank) {
+			w.Count("supply_bank_differs_from_record")
+			if bal.Equal(bank) && bal.IsPositive() {
+				if bal.LT(record) {
+					w.Count("supply_caller_holds_all_circulating_less_than_record")
+				} else {
+					w.Count("supply_caller_holds_all_circulating_more_than_record")
+				}
+			}
+			if bal.Equal(record) && err == nil && mask&32 == 0 {
+				w.Count("supply_accepted_holding_the_record_but_not_all_circulating")
+			}
+		}
+		if err == nil {
+			w.Count("supply_accepted")
+			w.Nontrivial(fmt.Sprintf("f/%s/%s/%s/%s/%s/%d", op, before, record, bank, bal, mask))
+		}
+	}
+}
+
+// ---------------------------------------------------------------------------------------------
+// Part J
+// ---------------------------------------------------------------------------------------------
+
+// c12IbcServer stands in for the ibc transfer module's message server: the token goes into the
+// channel's escrow account.
+type c12IbcServer struct {
+	send func(ctx context.Context, from, to sdk.AccAddress, amt sdk.Coins) error
+}
+
+func (s *c12IbcServer) Transfer(goCtx context.Context, msg *ibctransfertypes.MsgTransfer) (*ibctransfertypes.MsgTransferResponse, error) {
+	sender, err := sdk.AccAddressFromBech32(msg.Sender)
+	if err != nil {
+		return nil, err
+	}
+	escrow := ibctransfertypes.GetEscrowAddress(msg.SourcePort, msg.SourceChannel)
+	if err = s.send(goCtx, sender, escrow, sdk.NewCoins(msg.Token)); err != nil {
+		return nil, err
+	}
+	return &ibctransfertypes.MsgTransferResponse{Sequence: 1}, nil
+}
+
+func c12Ibc(e *c12Env, r *rand.Rand, w *CaseWriter) {
+	te := e.te
+	app, base := e.app, e.base
+	type desc map[string]any
+	admin := addrN(c12Admin)
+	// a second marker keeper over the same stores and keepers, with the stand-in ibc transfer server
+	mk := markerkeeper.NewKeeper(app.AppCodec(), app.GetKey(markertypes.StoreKey), app.AccountKeeper, app.BankKeeper, app.AuthzKeeper,
+		app.FeeGrantKeeper, app.AttributeKeeper, app.NameKeeper, &c12IbcServer{send: app.BankKeeper.SendCoins}, nil, nil)
+	server := markerkeeper.NewMsgServerImpl(mk)
+	port, channel := "transfer", "channel-7"
+	escrow := ibctransfertypes.GetEscrowAddress(port, channel)
+	n := scale(1200, 20000)
+	for i := 0; i < n; i++ {
+		ctx, _ := base.CacheContext()
+		denom := te.denoms[r.Intn(2)] // xrca (no forced transfer) or xrcb (forced transfer allowed)
+		status, mtype := "SActive", "TRestricted"
+		switch r.Intn(25) {
+		case 0:
+			denom, status = "xrcp", "SProposed"
+		case 1:
+			denom, status = "xrcf", "SFinalized"
+		case 2:
+			denom, mtype = "xcoin", "TCoin"
+		}
+		mask := c12TransferMasks(r)
+		if r.Intn(2) == 0 {
+			mask |= 64
+		}
+		if mtype == "TCoin" {
+			mask &= 63
+		}
+		e.setRights(ctx, denom, admin, mask)
+		m, _ := app.MarkerKeeper.GetMarkerByDenom(ctx, denom)
+		src := te.srcs[r.Intn(len(te.srcs))]
+		switch r.Intn(6) {
+		case 0:
+			src = te.srcs[0] // the administrator's own account
+		case 1, 2:
+			src = te.srcs[1] // an account that has signed
+		}
+		if src.addr == nil {
+			src.addr = m.GetAddress()
+		}
+		recv := te.recvs[r.Intn(len(te.recvs))]
+		amt := int64(1 + r.Intn(20))
+		switch r.Intn(20) {
+		case 0:
+			amt = 0
+		case 1:
+			amt = 501 + int64(r.Intn(100))
+		case 2:
+			amt = 500
+		case 3:
+			amt = -1 - int64(r.Intn(5))
+		}
+		var g *c12Grant
+		gkind := "none"
+		if !src.addr.Equals(admin) || r.Intn(4) == 0 {
+			other := te.denoms[r.Intn(len(te.denoms))]
+			if other == denom {
+				other = te.denoms[(te.denomID(denom))%len(te.denoms)]
+			}
+			pos := amt
+			if pos <= 0 {
+				pos = 1
+			}
+			switch r.Intn(10) {
+			case 0, 1, 2:
+				gkind, g = "enough", &c12Grant{limit: sdk.NewCoins(sdk.NewInt64Coin(denom, pos+int64(1+r.Intn(50))))}
+			case 3:
+				gkind, g = "enough-two-denoms", &c12Grant{limit: sdk.NewCoins(sdk.NewInt64Coin(denom, pos+int64(1+r.Intn(50))), sdk.NewInt64Coin(other, 7))}
+			case 4:
+				gkind, g = "exact", &c12Grant{limit: sdk.NewCoins(sdk.NewInt64Coin(denom, pos))}
+			case 5:
+				if pos > 1 {
+					gkind, g = "too-small", &c12Grant{limit: sdk.NewCoins(sdk.NewInt64Coin(denom, pos-1))}
+				}
+			case 6:
+				gkind, g = "other-denom-only", &c12Grant{limit: sdk.NewCoins(sdk.NewInt64Coin(other, 100))}
+			case 7:
+				first := te.recvs[0]
+				if first.Equals(recv) {
+					first = te.recvs[1]
+				}
+				gkind, g = "allow-list-has-receiver", &c12Grant{limit: sdk.NewCoins(sdk.NewInt64Coin(denom, pos+10)), allow: []string{first.String(), recv.String()}}
+			case 8:
+				al := []string{}
+				for _, a := range te.recvs {
+					if !a.Equals(recv) && len(al) < 2 {
+						al = append(al, a.String())
+					}
+				}
+				gkind, g = "allow-list-misses-receiver", &c12Grant{limit: sdk.NewCoins(sdk.NewInt64Coin(denom, pos+10)), allow: al}
+			}
+			if g != nil {
+				te.saveGrant(ctx, src.addr, admin, g)
+			}
+		}
+		pre := te.storedGrant(ctx, src.addr, admin)
+		fromBal := app.BankKeeper.SpendableCoins(ctx, src.addr).AmountOf(denom)
+		escBal := app.BankKeeper.GetBalance(ctx, escrow, denom).Amount
+		fromAcct := te.acctCoq(ctx, src.addr)
+		msg := markertypes.NewMsgIbcTransferRequest(admin.String(), port, channel, sdk.Coin{Denom: denom, Amount: sdkmath.NewInt(amt)},
+			src.addr.String(), recv.String(), clienttypes.NewHeight(1, 1000), 0, "")
+		cc, write := ctx.CacheContext()
+		err := try(func() error { _, err := server.IbcTransfer(cc, msg); return err })
+		if err == nil {
+			write()
+		}
+		post := te.storedGrant(ctx, src.addr, admin)
+		dFrom := fromBal.Sub(app.BankKeeper.SpendableCoins(ctx, src.addr).AmountOf(denom))
+		dEsc := app.BankKeeper.GetBalance(ctx, escrow, denom).Amount.Sub(escBal)
+		x := fmt.Sprintf("{| x_status := %s; x_type := %s; x_rights := %d%%N; x_forced := %s; x_self := %s; x_from := %s; x_dest := DPlain; x_grant := %s; x_msg := {| m_to := %d%%N; m_denom := %d%%N; m_amt := %s |}; x_frombal := %s |}",
+			status, mtype, mask, coqBool(m.AllowsForcedTransfer()), coqBool(src.addr.Equals(admin)), fromAcct, te.grantCoq(pre),
+			te.id(recv.String()), te.denomID(denom), zI64(amt), zInt(fromBal))
+		w.Add(fmt.Sprintf("CIbc %s %s %s %s %s", x, coqBool(err == nil), zInt(dEsc), zInt(dFrom), te.grantCoq(post)),
+			desc{"part": "ibc-transfer", "denom": denom, "marker_status": status, "marker_type": mtype, "admin_rights": c12RightList(mask), "forced_transfer_allowed": m.AllowsForcedTransfer(),
+				"sender": src.name, "grant": gkind, "amount": amt, "sender_balance": fromBal.String(), "ok": err == nil, "escrowed": dEsc.String()})
+		w.Count("ibc_cases")
+		w.Count("ibc_src_" + src.name)
+		if err == nil {
+			w.Count("ibc_accepted")
+			if !src.addr.Equals(admin) {
+				w.Count("ibc_accepted_by_grant")
+			}
+			w.Nontrivial(fmt.Sprintf("i/%s/%d/%s/%s/%d", denom, mask, src.name, gkind, amt))
+		} else if !src.addr.Equals(admin) && mask&64 != 0 && mask&128 != 0 && m.AllowsForcedTransfer() && pre == nil {
+			w.Count("ibc_refused_forced_rights_without_grant")
+		}
+	}
 }
